@@ -23,7 +23,14 @@ import (
 
 const watchdog = 20 * time.Second
 
-var concLevels = []int{0, 1, 2, 3, 8}
+// -1 stands for Concurrency 0 over a source that is only an io.ReadSeeker (no ReadAt): the path
+// that does not go through lib/readerat.
+var concLevels = []int{0, -1, 1, 2, 3, 8}
+
+type plainReadSeeker struct{ r *bytes.Reader }
+
+func (p plainReadSeeker) Read(b []byte) (int, error)                { return p.r.Read(b) }
+func (p plainReadSeeker) Seek(off int64, whence int) (int64, error) { return p.r.Seek(off, whence) }
 
 // ---- ops
 
@@ -41,6 +48,8 @@ func (o op) line() string {
 		return fmt.Sprintf("seek %d %d", o.a, o.b)
 	case "seekrange":
 		return fmt.Sprintf("seekrange %d %d", o.a, o.b)
+	case "closenw":
+		return "closenw"
 	}
 	return "close"
 }
@@ -199,6 +208,9 @@ func genOps(rng *hlib.Rand, tf *testFile, invalid bool) []op {
 			}
 		case k < 98 && !closed && len(ops) > n/2:
 			o = op{kind: "close"}
+			if rng.Chance(1, 3) {
+				o.kind = "closenw"
+			}
 			closed = true
 		default:
 			o = op{kind: "read", a: int64(1 + rng.Intn(100))}
@@ -209,7 +221,11 @@ func genOps(rng *hlib.Rand, tf *testFile, invalid bool) []op {
 		}
 		ops = append(ops, o)
 	}
-	ops = append(ops, op{kind: "close"})
+	if !closed && rng.Chance(1, 6) {
+		ops = append(ops, op{kind: "closenw"}) // CloseWithoutWaiting: the goroutines must still end
+	} else {
+		ops = append(ops, op{kind: "close"})
+	}
 	if rng.Chance(1, 4) {
 		ops = append(ops, op{kind: "close"})
 		ops = append(ops, op{kind: "read", a: 1})
@@ -328,6 +344,11 @@ func runSeq(tf *testFile, conc int, ops []op, leakCheck bool) seqResult {
 		CodecReaders:   tf.codecReaders(),
 		Concurrency:    conc,
 	}
+	if conc < 0 {
+		r.ReadSeeker = plainReadSeeker{bytes.NewReader(tf.enc)}
+		r.Concurrency = 0
+		conc = 0
+	}
 	var ref *refReader
 	if tf.valid {
 		ref = &refReader{br: bytes.NewReader(tf.decoded), size: tf.size, lim: tf.size}
@@ -366,6 +387,9 @@ func runSeq(tf *testFile, conc int, ops []op, leakCheck bool) seqResult {
 			case "seekrange":
 				err = r.SeekRange(o.a, o.b)
 				return "err=" + errWord(err)
+			case "closenw":
+				err = r.CloseWithoutWaiting()
+				return "err=" + errWord(err)
 			default:
 				err = r.Close()
 				return "err=" + errWord(err)
@@ -396,7 +420,7 @@ func runSeq(tf *testFile, conc int, ops []op, leakCheck bool) seqResult {
 			if err == nil {
 				failf("mismatch:call-after-close-succeeds", "call %d (%s) after Close returned no error", i, o.line())
 			}
-		case o.kind == "close":
+		case o.kind == "close" || o.kind == "closenw":
 			closedOK = true
 			if refLive && err != nil {
 				failf("mismatch:close-error", "Close returned %v", err)
@@ -518,7 +542,11 @@ func runCase(c *testCase, leakCheck bool) caseOut {
 		if lv > 1 && atomic.LoadInt32(&hungTotal) >= 3 {
 			continue
 		}
-		out.lines = append(out.lines, [2]string{fmt.Sprintf("open c=%d", lv), "ok"})
+		shown := lv
+		if shown < 0 {
+			shown = 0
+		}
+		out.lines = append(out.lines, [2]string{fmt.Sprintf("open c=%d", shown), "ok"})
 		res := runSeq(c.tf, lv, c.ops, leakCheck && atomic.LoadInt32(&hungTotal) == 0)
 		for i, o := range res.outs {
 			out.lines = append(out.lines, [2]string{c.ops[i].line(), o})
@@ -589,7 +617,7 @@ func main() {
 	}
 	nCases := 130
 	if r.Thorough {
-		nCases = 9000
+		nCases = 6000
 	}
 	// ---- generate
 	var cases []*testCase
@@ -604,15 +632,17 @@ func main() {
 		switch {
 		case k < 50:
 			tf, src, e = genWriterFile(rng, r.Thorough && rng.Chance(1, 10))
-		case k < 65:
+		case k < 58:
 			tf, e = genChunkFile(rng, "zlib")
+		case k < 65:
+			tf, e = genChunkFile(rng, "zlib-dict")
 		case k < 75:
 			tf, e = genChunkFile(rng, "zeroes")
 		case k < 92:
 			tf, e = genChunkFile(rng, "stored")
 		default:
 			tf, e = genChunkFile(rng, "stored-bad")
-			levels = []int{0, 1} // the order in which workers meet a bad chunk is not part of the property
+			levels = []int{0, -1, 1} // the order in which workers meet a bad chunk is not part of the property
 		}
 		c := &testCase{tf: tf, levels: levels}
 		if e == "" {
@@ -708,6 +738,7 @@ func main() {
 		for _, op := range c.ops {
 			r.Count("op:" + op.kind)
 		}
+		r.Count("kind:" + strings.SplitN(c.tf.desc, " ", 2)[0])
 		for _, l := range o.lines {
 			switch {
 			case strings.Contains(l[1], "err=eof"):
@@ -835,13 +866,13 @@ func raceMain(r *hlib.Run) {
 		if rng.Bool() {
 			tf, _, e = genWriterFile(rng, false)
 		} else {
-			tf, e = genChunkFile(rng, []string{"zlib", "zeroes", "stored"}[rng.Intn(3)])
+			tf, e = genChunkFile(rng, []string{"zlib", "zlib-dict", "zeroes", "stored"}[rng.Intn(4)])
 		}
 		if e != "" || tf.describe() != "" {
 			continue
 		}
 		ops := genOps(rng, tf, false)
-		for _, lv := range []int{2, 3, 8} {
+		for _, lv := range []int{2, 8} {
 			runSeq(tf, lv, ops, false)
 		}
 		n++
